@@ -455,6 +455,27 @@ fn client_table(rep: &mut SearchReport, seed: u64, only: Option<&serde_json::Val
                 "success",
             ));
         }
+        // ranges at the top of the address space: the last address is 65535, or close to it
+        for k in 0..6u16 {
+            let count = match k {
+                0 => 1,
+                1 => lim,
+                2 => 2.min(lim),
+                _ => 1 + (next() as u16 % lim),
+            };
+            let slack = if k < 4 { 0 } else { next() as u16 % 3 };
+            scenarios.push((
+                Scenario {
+                    op,
+                    unit: next() as u8,
+                    start: (65535 - (count - 1)) - slack,
+                    count,
+                    seed: next() as u16,
+                    timeout_ms: 2000,
+                },
+                "success_top_of_address_space",
+            ));
+        }
         // every exception code
         for code in 0..=255u16 {
             scenarios.push((
